@@ -602,7 +602,11 @@ class LinearModel(Model):
         """
         Returns an ndarray with the matrix representing the forward operator.
         """
-        if self._matrix is not None: #Matrix exists so return it
+        # A stored matrix represents the forward operator only if both geometries act as the identity
+        # (or if it was assembled from the forward operator below)
+        identity_geometries = type(self.domain_geometry) in _get_identity_geometries() and \
+                              type(self.range_geometry) in _get_identity_geometries()
+        if self._matrix is not None and (identity_geometries or getattr(self, '_matrix_is_assembled', False)):
             return self._matrix
         else:
             #TODO: Can we compute this faster while still in sparse format?
@@ -616,10 +620,12 @@ class LinearModel(Model):
                 mat = hstack((mat,col_vec[:,None])) #mat[:,i] = self.forward(e)
                 e[i] = 0
 
-            #Store matrix for future use
-            self._matrix = mat
+            #Store matrix for future use (unless the model is defined by a matrix acting on function values)
+            if self._matrix is None:
+                self._matrix = mat
+                self._matrix_is_assembled = True
 
-            return self._matrix
+            return mat
 
     def __matmul__(self, x):
         return self.forward(x)
